@@ -33,3 +33,13 @@ func VerifIterScratchCap(it MessageIterator) (recordBufCap uint64, pendingIndexe
 	}
 	return uint64(cap(ii.recordBuf)), len(ii.messageIndexes) - ii.curMessageIndex, true
 }
+
+// VerifIterQueueCap reports the capacity (in entries) of the iterator's message
+// index queue, including entries that were already yielded but not yet dropped.
+func VerifIterQueueCap(it MessageIterator) (queueCap int, queueLen int, ok bool) {
+	ii, isIndexed := it.(*indexedMessageIterator)
+	if !isIndexed {
+		return 0, 0, false
+	}
+	return cap(ii.messageIndexes), len(ii.messageIndexes), true
+}
